@@ -168,7 +168,7 @@ func genVal(rt *rapid.T, d int) *cval {
 		v := &cval{T: "map"}
 		used := map[string]bool{}
 		for n := rapid.IntRange(0, 4).Draw(rt, "mn"); n > 0; n-- {
-			key := rapid.SampledFrom([]string{"k", "key2", "a b", "é", "x\"y", "Z", "n0"}).Draw(rt, "mk")
+			key := rapid.SampledFrom([]string{"k", "key2", "a b", "é", "x\"y", "Z", "n0", "\x01", "t\tab", "nl\n", "\x7f", "\x1f", "b\\s", "s/l", "<&>", "\u2028", "\x0b", "\x00z"}).Draw(rt, "mk")
 			if used[key] {
 				continue
 			}
